@@ -502,6 +502,142 @@ func runOne(t *testing.T, res *vh.Result, tr *vh.Trace, id int, n int, sched []m
 	return nil
 }
 
+// flood delivers every payload from `start` on that has not been delivered yet to every non-silent node, until nothing
+// new appears (transaction requests are NOT served).
+func (x *run) flood(start int, rounds int) {
+	for r := 0; r < rounds && x.fatal == nil; r++ {
+		moved := false
+		for id := start; id < x.c.NMsgs(); id++ {
+			m := x.c.Msg(id)
+			for to := range x.c.Nodes {
+				if !x.given[id][to] && m.From != to && !x.silent[to] {
+					x.deliver(id, to)
+					moved = true
+				}
+			}
+		}
+		if !moved {
+			return
+		}
+	}
+}
+
+// latePrep: one validator L hears nothing while the others agree on the height; then it receives ALL their Commits
+// first and the preparation afterwards, so that when it assembles the block it holds more than M commits.
+func (x *run) latePrep() {
+	_, mx := x.minmax()
+	H := mx + 1
+	N := x.c.N
+	p0 := x.c.NodeOfValidator(int(H) % N)
+	L := (p0 + 1 + x.r.Intn(N-1)) % N
+	tx := x.newTx()
+	for i := range x.c.Nodes {
+		_ = x.c.GiveTx(i, tx)
+	}
+	x.silent = map[int]bool{L: true}
+	x.emit(map[string]any{"event": "silent", "set": []int{L}, "scene": "lateprep"})
+	start := x.c.NMsgs()
+	x.timeout(p0)
+	x.flood(start, 8)
+	x.silent = map[int]bool{}
+	x.emit(map[string]any{"event": "silent", "set": []int{}})
+	for _, typ := range []string{"Commit", "PrepareRequest", "PrepareResponse"} {
+		for id := start; id < x.c.NMsgs(); id++ {
+			if m := x.c.Msg(id); m.Type == typ && m.Height == H {
+				x.deliver(id, L)
+			}
+		}
+	}
+	x.res.Inc("lateprep_scenes", 1)
+	if x.c.Nodes[L].BC.BlockHeight() >= H {
+		x.res.Inc("lateprep_assembled", 1)
+	}
+}
+
+// partialPool: the primary of view 0 proposes `k` transactions of which the primary of view 1 has pooled only `have`
+// (requests for the missing ones are not served); the view changes and the new primary proposes from what is left of
+// the failed proposal and its pool.
+func (x *run) partialPool(k, have int) {
+	_, mx := x.minmax()
+	H := mx + 1
+	N := x.c.N
+	p0 := x.c.NodeOfValidator(int(H) % N)
+	p1 := x.c.NodeOfValidator((int(H) - 1 + N) % N)
+	var hs []string
+	for i := 0; i < k; i++ {
+		tx := x.newTx()
+		x.txs = append(x.txs, tx)
+		to := []int{}
+		for j := range x.c.Nodes {
+			if j == p0 || i < have || (j != p1 && x.r.Intn(3) == 0) {
+				if x.c.GiveTx(j, tx) == nil {
+					to = append(to, j)
+				}
+			}
+		}
+		hs = append(hs, tx.Hash().StringLE())
+		x.emit(map[string]any{"event": "txgiven", "tx": tx.Hash().StringLE(), "to": to})
+	}
+	if x.r.Intn(2) == 0 {
+		// something the new primary has pooled and the old one has not
+		tx := x.newTx()
+		x.txs = append(x.txs, tx)
+		_ = x.c.GiveTx(p1, tx)
+		x.emit(map[string]any{"event": "txgiven", "tx": tx.Hash().StringLE(), "to": []int{p1}})
+	}
+	x.silent = map[int]bool{}
+	start := x.c.NMsgs()
+	x.emit(map[string]any{"event": "scene", "scene": "partialpool", "k": k, "have": have, "p0": p0, "p1": p1})
+	x.timeout(p0)
+	x.flood(start, 4)
+	for round := 0; round < 6 && x.fatal == nil && x.find("PrepareRequest", p1, 1, H) < 0; round++ {
+		for i := range x.c.Nodes {
+			if mn, _ := x.minmax(); mn >= H {
+				break
+			}
+			x.timeout((p1 + 1 + i) % N) // the new primary's timer last
+			x.flood(start, 4)
+		}
+	}
+	if id := x.find("PrepareRequest", p1, 1, H); id >= 0 {
+		x.res.Inc("partialpool_reproposals", 1)
+	}
+	x.flood(start, 4)
+}
+
+func runScene(t *testing.T, res *vh.Result, tr *vh.Trace, id int, n int, scene string, a, b int) error {
+	dir, err := os.MkdirTemp(os.Getenv("VERIF_WORK"), "c19")
+	if err != nil {
+		return err
+	}
+	defer os.RemoveAll(dir)
+	x := &run{t: t, tr: tr, res: res, r: vh.Rand(int64(id)), silent: map[int]bool{}, given: map[int]map[int]bool{}, id: id}
+	c, err := NewCluster(n, dir, func(ev map[string]any) { tr.Emit(ev) })
+	if err != nil {
+		return err
+	}
+	x.c = c
+	x.lastH = make([]uint32, n)
+	defer c.Close()
+	tr.Emit(map[string]any{"event": "init", "run": id, "n": n, "f": c.F, "m": n - c.F, "scene": scene})
+	c.Start()
+	x.synchronous(1, 6*n, false)
+	for rep := 0; rep < 2 && x.fatal == nil; rep++ {
+		switch scene {
+		case "lateprep":
+			x.latePrep()
+		case "partialpool":
+			x.partialPool(a, b)
+		}
+		if !x.synchronous(3, 6*n, true) {
+			break
+		}
+	}
+	x.feedAll()
+	res.Traces++
+	return x.fatal
+}
+
 // runSync is a run in which the statement's liveness condition holds throughout: everybody honest, everything delivered.
 func runSync(t *testing.T, res *vh.Result, tr *vh.Trace, id int, n int) error {
 	dir, err := os.MkdirTemp(os.Getenv("VERIF_WORK"), "c19")
@@ -563,6 +699,24 @@ func TestDriver(t *testing.T) {
 				}
 				k++
 			}
+		}
+	}
+	// scripted scenes: more than M commits at assembly time; re-proposal from a partly pooled failed proposal
+	k = 0
+	for _, n := range []int{4, 7} {
+		if n == 7 && os.Getenv("VERIF_TIER") != "thorough" {
+			continue
+		}
+		type sc struct {
+			s    string
+			a, b int
+		}
+		for _, s := range []sc{{"lateprep", 0, 0}, {"partialpool", 4, 1}, {"partialpool", 6, 2}, {"partialpool", 5, 3}, {"partialpool", 4, 0}} {
+			if err := runScene(t, res, tr, 4000+k, n, s.s, s.a, s.b); err != nil {
+				tr.Close()
+				t.Fatalf("scene run %d (%s): %v", k, s.s, err)
+			}
+			k++
 		}
 	}
 	n7 := vh.EnvInt("VERIF_N7", 1)
